@@ -26,11 +26,11 @@ META = {
                   'for every request of every configuration reachable within the bound.  Every such configuration is '
                   'then built as a real app on both stacks and every row of its TLC-computed decision table is compared '
                   'with what the app does; random larger apps are recorded and judged by TLC against the same module.',
-    'level_note': 'Bounded.  Model check (every clause x 7 methods x 35 paths per configuration): quick = all configurations '
-                  'reachable with <= 2 assembly calls over 6 templates x 2 resource kinds x suffix, 4 sink prefixes, 2 static '
-                  'prefixes x fallback, both flag values (1 686) + one route with every subset of a 6-method universe x 2 '
-                  'suffixed sets x 9 methods (514); thorough = <= 2 calls with 4 resource kinds (5 238) and <= 3 calls with 2 '
-                  '(39 702).  Replay: the one-call tables in full, two-call tables over reduced pools (quick) / in full, the two stacks taking turns per configuration '
+    'level_note': 'Bounded.  Model check (every clause x 7 methods x 38 paths per configuration): quick = all configurations '
+                  'reachable with <= 2 assembly calls over 6 templates x 2 resource kinds x suffix, 10 sink prefixes, 2 static '
+                  'prefixes x fallback, both flag values (2 614) + one route with every subset of a 6-method universe x 2 '
+                  'suffixed sets x 9 methods (514); thorough = <= 2 calls with 4 resource kinds (6 838) and <= 3 calls with 2 '
+                  'kinds and six of the sink prefixes (53 102).  Replay: the one-call tables in full, two-call tables over reduced pools (quick) / in full, the two stacks taking turns per configuration '
                   '(thorough), TLC-simulated 4-6 call histories with sampled rows; random apps up to 12 routes / 6 sinks / 3 '
                   'static routes with assembly interleaved with requests.  Route templates have literal and single-field '
                   'segments only (converters / multi-field segments belong to C01); sink prefixes are built from literal text, '
